@@ -109,14 +109,16 @@ theorem printed_form_lexes_partial (cfg : Config) (hc : cfg ∈ Gen.AsmAll.all)
     (vs : List Val) (hf : Fits cfg ls vs) :
     lex (render ls vs) = some (tokens ls vs) := by
   have h := all_configs_wellSpaced cfg hc
-  simp only [configWellSpaced, List.all_eq_true, Bool.or_eq_true, Bool.not_eq_true'] at h
+  simp only [configWellSpaced, Bool.and_eq_true, List.all_eq_true, Bool.or_eq_true, Bool.not_eq_true'] at h
+  obtain ⟨hregs, h⟩ := h
+  have hregs' : regsOK cfg = true := by simpa [regsOK, List.all_eq_true] using hregs
   have h1 := h s hs
   rcases h1 with h1 | h1
   · rw [hi] at h1; cases h1
   · have h2 := h1 ls hl
     rcases h2 with h2 | h2
     · rw [hsup] at h2; cases h2
-    · exact lex_render_eq_tokens cfg ls vs h2 hf
+    · exact lex_render_eq_tokens cfg ls vs (Proofs.AsmSyn.wellSpaced_of_fast hregs' h2) hf
 
 /-! non-vacuity: a concrete avr instruction with a two-token register name and a negative immediate -/
 
